@@ -75,6 +75,7 @@ def gen_pool(rng, w, n_tables=(2, 4), n_dms=(2, 5), n_ammos=(2, 4), n_atmos=(2, 
         if rng.random() < 0.25:
             at["altitude"] = {"ref": 2}
         w["atmos"].append(at)
+    w["shared_atmos"] = len(w["atmos"])          # atmospheres added later are owned by the task that edits them
     for _ in range(rng.randint(*n_winds)):
         w["winds"].append(gen.gen_wind(rng, max_fps=40.0,
                                        until_ft=None if rng.random() < 0.3 else round(rng.uniform(100, 2500), 1)))
@@ -96,7 +97,7 @@ def gen_shot(rng, w, weapon_id, steep_p=0.15):
         look = round(rng.uniform(-25, 25), 2)
     # only the shared pool: ammunition added later for calibration is owned by the task that calibrates it
     s = {"weapon": weapon_id, "ammo": rng.randrange(w.get("shared_ammos", len(w["ammos"]))),
-         "atmo": rng.randrange(len(w["atmos"])),
+         "atmo": rng.randrange(w.get("shared_atmos", len(w["atmos"]))),
          "look": {"ref": 0} if rng.random() < 0.2 else gen.gen_angle_deg(rng, look),
          "relative": gen.gen_angle_deg(rng, gen.pick(rng, [0.0, 0.0, round(rng.uniform(-0.3, 1.0), 3)])),
          "cant": gen.gen_angle_deg(rng, gen.pick(rng, [0.0, 0.0, 0.0, round(rng.uniform(-20, 20), 1)]))}
@@ -282,6 +283,20 @@ def gen_client_program(rng, w, task_idx, calcs, shots, n_ops, raising_calcs, all
             tgt = gen.pick(rng, ["shot", "weapon", "ammo", "dm", "dm"] if own_ammos else ["shot", "shot", "weapon"])
             if tgt in ("ammo", "dm"):
                 s = next(k for k in shots if w["shots"][k]["ammo"] == own_ammos[0])
+            r2 = random.Random(repr(rng.getstate()[1][:6]))            # side stream (see gen_shot)
+            if r2.random() < 0.2:
+                # the weather changes: humidity of an atmosphere this task owns (explicit station conditions), through the
+                # public property setter
+                tgt = "atmo"
+                w["atmos"].append({"kind": "explicit", "altitude": [round(r2.uniform(0, 4000), 1), "Foot"],
+                                   "pressure": [round(r2.uniform(26.0, 30.5), 2), "InHg"],
+                                   "temperature": [round(r2.uniform(-5, 35), 1), "Celsius"],
+                                   "humidity": gen.pick(r2, [0.0, 0.2, 0.5])})
+                sh = dict(w["shots"][s])
+                sh["atmo"] = len(w["atmos"]) - 1
+                w["shots"].append(sh)
+                shots.append(len(w["shots"]) - 1)
+                s = shots[-1]
             # computation - edit - the same computation again: the second must see the edit
             around = {"op": "fire", "calc": c, "shot": s, "range": gen_range(rng, 100, 400), "step": [100.0, "Yard"]}
             prog.append(dict(around))
@@ -293,6 +308,9 @@ def gen_client_program(rng, w, task_idx, calcs, shots, n_ops, raising_calcs, all
                 f = gen.pick(rng, ["sight_height", "twist"])
                 v = [round(rng.uniform(1.0, 3.5), 2), "Inch"] if f == "sight_height" else [gen.pick(rng, [8.0, 9.0, 12.0, -10.0]), "Inch"]
                 prog.append({"op": "edit", "kind": "weapons", "index": w["shots"][s]["weapon"], "field": f, "value": v})
+            elif tgt == "atmo":
+                prog.append({"op": "edit", "kind": "atmos", "index": w["shots"][s]["atmo"], "field": "humidity",
+                             "value": gen.pick(r2, [0.9, 0.75, 1.0, 60.0, 95.0])})
             elif tgt == "ammo":
                 prog.append({"op": "edit", "kind": "ammos", "index": own_ammos[0], "field": "mv",
                              "value": [round(rng.uniform(2300, 3100), 1), "FPS"]})
